@@ -104,6 +104,8 @@ example : getExtension regList "arithmetic.int.types" = .error .extension := rfl
 example : getType { listExt with types := [] } "List" = .error .type := rfl
 example : (typeDefRef listDef).ext = "collections.list" ∧ (typeDefRef listDef).name = "List" :=
   found_type_def_names regAll regAll_wf _ _ _ rfl
+example : (opDefRef popDef).ext = some "collections.list" ∧ (opDefRef popDef).name = "pop" :=
+  found_op_def_names regAll regAll_wf "collections.list" "pop" popDef rfl
 
 /-! ### resolves_iff — replaced exactly when the registry has extension and definition -/
 
@@ -217,7 +219,10 @@ example : resolveOp regAll popOp =
     .extOp (opDefRef popDef)
       (some ⟨[resolveTy regAll listInt5], [resolveTy regAll listInt5, Ty.option [int5R]], ["collections.list"]⟩) [.type int5R] := rfl
 example : resolveOp regEmpty popOp = popOp := rfl
-example : resolveOp regAll (.dfg [listInt5] (some [listInt5]) []) = .dfg [listInt5] (some [listInt5]) [] := rfl
+example : resolveOp regAll (.dfg [listInt5] (some [listInt5]) []) = .dfg [listInt5] (some [listInt5]) [] :=
+  other_ops_untouched regAll _ (fun _ _ _ _ _ h => nomatch h)
+example : resolveOp regAll (resolveOp regAll popOp) = resolveOp regAll popOp :=
+  other_ops_untouched regAll _ (fun _ _ _ _ _ h => nomatch h)   -- an `ExtOp` is not visited again
 example : resolveTy regAll (Ty.tuple [.usize, .variable 0 .any]) = Ty.tuple [.usize, .variable 0 .any] :=
   (unchanged_iff regAll _).2 (fun x hx => by
     have h : opaques (Ty.tuple [.usize, .variable 0 .any]) = [] := rfl
@@ -317,11 +322,34 @@ example : encOp (resolveOp regAll popOp) 3 =
     encOp (.custom "pop" ⟨[listInt5], [listInt5, Ty.option [int5]], ["collections.list"]⟩ "Pop from the back of list"
       "collections.list" [.type int5]) 3 :=
   wire_invariant_op _ regAll_wf popOp popOp_consistent 3
-example : StoreConsistent regAll (Store.init popOp ([] : Serial.Meta)) := by
+theorem popStore_consistent : StoreConsistent regAll (Store.init popOp ([] : Serial.Meta)) := by
   intro i d h
   cases i with
   | zero => cases h; exact popOp_consistent
   | succ n => cases h
+example : ArgConsistent regAll (.sequence [.type listInt5]) := rfl
+example : encArg (resolveArg regAll (.sequence [.type listInt5])) = encArg (.sequence [.type listInt5]) :=
+  wire_invariant_arg _ regAll_wf _ rfl
+example : (encOp (resolveOp regAll popOp) 3).map eraseDescription = (encOp popOp 3).map eraseDescription :=
+  wire_invariant_op_modulo_description _ regAll_wf popOp popOp_consistent 3
+example : ∃ j, encOp popOp 3 = .ok j := ⟨_, rfl⟩
+example : Serial.toJson (Serial.opsCodec 0) "enc" (resolveStore regAll (Store.init popOp []))
+    = Serial.toJson (Serial.opsCodec 0) "enc" (mapOps (withDefDescription regAll) (Store.init popOp [])) :=
+  wire_invariant_hugr _ regAll_wf _ popStore_consistent 0 "enc"
+/-- the same operation with the description its definition has: the document does not change at all -/
+def popOp' : Op := .custom "pop" ⟨[listInt5], [listInt5, Ty.option [int5]], ["collections.list"]⟩ "Pop from the back of list" "collections.list" [.type int5]
+example : Serial.toJson (Serial.opsCodec 0) "enc" (resolveStore regAll (Store.init popOp' []))
+    = Serial.toJson (Serial.opsCodec 0) "enc" (Store.init popOp' ([] : Serial.Meta)) :=
+  wire_invariant_hugr_same_descriptions _ regAll_wf _
+    (by intro i d h
+        cases i with
+        | zero => cases h; rfl
+        | succ n => cases h)
+    (by intro i d h
+        cases i with
+        | zero => cases h; rfl
+        | succ n => cases h) 0 "enc"
+example : ∃ j, Serial.toJson (Serial.opsCodec 0) "enc" (Store.init popOp' ([] : Serial.Meta)) = .ok j := ⟨_, rfl⟩
 
 /-- The consistency hypothesis is needed: an opaque `int<5>` that claims to be linear is emitted
     with bound `A` before and with the definition's bound `C` after resolution. -/
@@ -364,6 +392,7 @@ theorem signature_resolved (r : Registry) (n : String) (s : Sig) (d e : String) 
   exact sigPortType_resolveSig r s dir off
 
 example : Ty.bound (resolveTy regAll listInt5) = .ok .copyable := rfl
+example : Ty.bound (resolveTy regAll listInt5) = Ty.bound listInt5 := bound_invariant _ regAll_wf _ listInt5_consistent
 example : outerSig (resolveOp regAll popOp) = .ok (resolveSig regAll ⟨[listInt5], [listInt5, Ty.option [int5]], ["collections.list"]⟩) :=
   (signature_resolved regAll _ _ _ _ _ popDef rfl).1
 example : (portKind (resolveOp regAll popOp) .out 1).map kindView = (portKind popOp .out 1).map kindView :=
@@ -394,6 +423,9 @@ theorem model_name_invariant (r : Registry) (hwf : RegistryWf r) (id : String) (
 example : toModel listInt5 =
     .ok (.apply "collections.list.List" [.apply "arithmetic.int.types.int" [.litInt 5]]) := rfl
 example : toModel (resolveTy regAll listInt5) = toModel listInt5 := model_invariant _ regAll_wf _
+example : toModelArg (resolveArg regAll (.type listInt5)) = toModelArg (.type listInt5) := model_invariant_arg _ regAll_wf _
+example : toModelName (resolveTy regAll listInt5) = some "collections.list.List" :=
+  model_name_invariant regAll regAll_wf "List" .copyable [.type int5] "collections.list"
 
 /-! ### idempotent — resolving twice is resolving once (no hypotheses) -/
 
